@@ -6,6 +6,7 @@ import Pdlv.Lemmas.JavaChunk
 import Pdlv.Lemmas.JavaArrays
 import Pdlv.Lemmas.JavaEnumArrays
 import Pdlv.Lemmas.JavaSerChild
+import Pdlv.JavaStruct
 import Pdlv.Thm.C03
 
 namespace Pdlv
@@ -114,6 +115,24 @@ theorem java_reads_arrays_and_payloads (c : Cfg) (nm : String) (items : Items) (
     Java.decodeFull c (.root nm items) bs = .ok v ↔
       Pdlv.decodeFull { e := c.e, mode := .ideal } (.root nm items) bs = .ok v :=
   decode_same2 c nm items hw bs hb v
+
+/-- the model the driver runs against the emitted classes also covers struct-typed fields (`Pdlv.JavaStruct`: the struct parsed
+    from `buf.slice()`, the buffer advanced by its `width()`; compared by execution, no theorem of their own); on the classes of
+    the two theorems above it IS the model they are about -/
+theorem java_struct_model_is_the_same_on_the_classes (c : Cfg) (nm : String) (items : Items) :
+    (decWfItems2 items = true → ∀ bs, Java.decodeFullS c (.root nm items) bs = Java.decodeFull c (.root nm items) bs) ∧
+    (encWfItems items = true → ∀ v, Java.encBodyS c (.root nm items) v = Java.encBody c (.root nm items) v) :=
+  ⟨fun hw bs => decodeFullS_eq c nm items hw bs, fun hw v => encBodyS_eq c nm items hw v⟩
+
+/-! `struct S { a: 8, b: 16 } packet P { k: 8, s: S, t: 8 }`: `01 02 34 12 09` is read with `s = { a: 2, b: 0x1234 }` -/
+example :
+    let sb : Body := .root "S" (.cons (.chunk [.scalar "a" 8]) (.cons (.chunk [.scalar "b" 16]) .nil))
+    let items : Items := .cons (.chunk [.scalar "k" 8]) (.cons (.typedef "s" (.struct "S" sb) (some 3)) (.cons (.chunk [.scalar "t" 8]) .nil))
+    Java.decodeFullS { e := .little } (.root "P" items) [1, 2, 0x34, 0x12, 9] =
+      .ok (.obj [("k", .int 1), ("s", .obj [("a", .int 2), ("b", .int 0x1234)]), ("t", .int 9)]) ∧
+    Java.encBodyS { e := .little } (.root "P" items)
+      (.obj [("k", .int 1), ("s", .obj [("a", .int 2), ("b", .int 0x1234)]), ("t", .int 9)]) = .ok [1, 2, 0x34, 0x12, 9] := by
+  refine ⟨by rfl, by rfl⟩
 
 /-- **KF-C19-int-chunk**: `packet P { a: 9, b: 2, c: 29 }` (one group of 40 bits, every field at most 32 bits wide) with
     `c = 0x1fffffff`: `c << 11` is computed in `int` and loses its high bits; the emitted bytes are `01 fa ff ff 00`
